@@ -201,16 +201,23 @@ def s5(ctx, rep):
     if ok:
         from .c01 import _dom_atoms
         dom_ = _dom_atoms(cm, idx[0].id)
-        extra_ = [a for a in dom_ if not (a[0] == "isinstance" and a[1] == "metric_mode" and a[2] == "list" and a[3] is True)]
+        # (a validation of the type of `metric` in front of everything excludes no legal call)
+        extra_ = [a for a in dom_ if not (a[0] == "isinstance" and a[1] == "metric_mode" and a[2] == "list" and a[3] is True)
+                  and not (a[0] == "isinstance" and a[1] == "metric" and a[3] is True and set(a[2].strip("()").replace(" ", "").split(",")) <= {"str", "int"}
+                           and len(a[2].strip("()").split(",")) == 2)]
         rep.put(not extra_, "S5", "guarded_by", "metric_name_mode: a list of modes is reduced to the queried metric's mode whenever it is a list", mm,
                 idx[0].ast, "", f"the reduction is additionally guarded by {sorted(map(str, extra_))}: a one-element list of modes is returned as a list, "
                 "`mode == 'min'` is then false everywhere and the maximiser is reported as the best configuration")
-    mi = [d for d in local_defs(mm, mix) if not isinstance(d, tuple)]
-    ok = ok and len(mi) == 1 and isinstance(mi[0], ast.IfExp)
+    # the index: position of the name when the metric was given by name, the metric itself when it was given as an index - written as
+    # a conditional expression or as if/else, the test written out or held in a flag
+    from ..engine import value_choices, deref
+    chs = [c_ for c_ in value_choices(mm) if (c_[4] == mix) or (c_[4] == "expr" and any(d is c_[0] for d in local_defs(mm, mix) if not isinstance(d, tuple)))]
+    ok = ok and len(chs) == 1
     if ok:
-        t, arm_t, arm_f = mi[0].test, mi[0].body, mi[0].orelse
+        t, arm_t, arm_f = chs[0][1], chs[0][2], chs[0][3]
         while isinstance(t, ast.UnaryOp) and isinstance(t.op, ast.Not):
             t, arm_t, arm_f = t.operand, arm_f, arm_t
+        t = deref(mm, t)
         ok = U(t).replace(" ", "") == "isinstance(metric,str)" and U(arm_t).replace(" ", "") == f"metric_names.index({mname})" and U(arm_f) == "metric"
     nm = [U(d) for d in local_defs(mm, mname) if not isinstance(d, tuple)]
     ok = ok and set(nm) == {"metric", "metric_names[metric]"}
